@@ -139,6 +139,12 @@ func (e *Executor) Execute(ctx context.Context, typ Type, source interface{}, qu
 		if !ok {
 			continue
 		}
+		if selection.Name == "__typename" {
+			writer := newOutputNode(topLevelRespWriter, selection.Alias)
+			writer.Fill(queryObject.Name)
+			writers[selection.Alias] = writer
+			continue
+		}
 		field, ok := queryObject.Fields[selection.Name]
 		if !ok {
 			return nil, fmt.Errorf("invalid top-level selection %q", selection.Name)
